@@ -301,6 +301,58 @@ fn output_result_xml<T: serde::Serialize>(result: T) -> Result<()> {
     // format. The function takes a mutable reference to the XML writer, an
     // optional key as a string slice, and a reference to the JSON value to be
     // converted.
+    /// Is `key` usable as an XML element name? (ASCII subset of the Name production, without ':')
+    fn is_xml_name(key: &str) -> bool {
+        let mut chars = key.chars();
+        match chars.next() {
+            Some(c) if c.is_ascii_alphabetic() || c == '_' => {}
+            _ => return false,
+        }
+        chars.all(|c| c.is_ascii_alphanumeric() || c == '_' || c == '-' || c == '.')
+    }
+
+    /// Start tag for a JSON key: the key itself when it is an XML name, otherwise
+    /// `<entry key="…">` with the key as an (escaped) attribute value.
+    fn start_of(key: &str) -> BytesStart<'_> {
+        if is_xml_name(key) {
+            BytesStart::new(key)
+        } else {
+            let mut start = BytesStart::new("entry");
+            start.push_attribute((&b"key"[..], xml_escape(key, true).as_bytes()));
+            start
+        }
+    }
+
+    fn end_of(key: &str) -> BytesEnd<'_> {
+        if is_xml_name(key) {
+            BytesEnd::new(key)
+        } else {
+            BytesEnd::new("entry")
+        }
+    }
+
+    /// Escape text for an XML 1.1 document: the five markup characters, and the control characters,
+    /// which XML 1.1 only allows as character references (in an attribute value also tab and line
+    /// feed). U+0000 cannot be represented at all and becomes U+FFFD.
+    fn xml_escape(text: &str, attribute: bool) -> String {
+        let mut escaped = String::with_capacity(text.len());
+        for c in text.chars() {
+            match c {
+                '&' => escaped.push_str("&amp;"),
+                '<' => escaped.push_str("&lt;"),
+                '>' => escaped.push_str("&gt;"),
+                '"' => escaped.push_str("&quot;"),
+                '\'' => escaped.push_str("&apos;"),
+                '\0' => escaped.push('\u{FFFD}'),
+                // a parser would turn these into something else (line ends, attribute value normalisation)
+                '\t' | '\n' if !attribute => escaped.push(c),
+                c if c.is_control() => escaped.push_str(&format!("&#x{:X};", c as u32)),
+                c => escaped.push(c),
+            }
+        }
+        escaped
+    }
+
     fn json_to_xml<W: std::io::Write>(writer: &mut Writer<W>, key: Option<&str>, value: &Value) -> Result<()> {
         match value {
             // If the JSON value is an object, iterate through its properties,
@@ -308,7 +360,7 @@ fn output_result_xml<T: serde::Serialize>(result: T) -> Result<()> {
             Value::Object(obj) => {
                 if let Some(key) = key {
                     // Start an XML element for the object.
-                    writer.write_event(Event::Start(BytesStart::new(key)))?;
+                    writer.write_event(Event::Start(start_of(key)))?;
                 }
 
                 for (k, v) in obj {
@@ -318,7 +370,7 @@ fn output_result_xml<T: serde::Serialize>(result: T) -> Result<()> {
 
                 if let Some(key) = key {
                     // Close the XML element for the object.
-                    writer.write_event(Event::End(BytesEnd::new(key)))?;
+                    writer.write_event(Event::End(end_of(key)))?;
                 }
             }
 
@@ -334,7 +386,7 @@ fn output_result_xml<T: serde::Serialize>(result: T) -> Result<()> {
             // If the JSON value is null, create an empty XML element.
             Value::Null => {
                 if let Some(key) = key {
-                    writer.write_event(Event::Empty(BytesStart::new(key)))?;
+                    writer.write_event(Event::Empty(start_of(key)))?;
                 }
             }
 
@@ -344,7 +396,7 @@ fn output_result_xml<T: serde::Serialize>(result: T) -> Result<()> {
             _ => {
                 if let Some(key) = key {
                     // Start the XML element with the given key.
-                    writer.write_event(Event::Start(BytesStart::new(key)))?;
+                    writer.write_event(Event::Start(start_of(key)))?;
                 }
 
                 // Convert the JSON value to a string, trimming quotes for non-string values.
@@ -354,11 +406,11 @@ fn output_result_xml<T: serde::Serialize>(result: T) -> Result<()> {
                 };
 
                 // Create a text node with the converted string value.
-                writer.write_event(Event::Text(BytesText::new(&text_string)))?;
+                writer.write_event(Event::Text(BytesText::from_escaped(xml_escape(&text_string, false))))?;
 
                 if let Some(key) = key {
                     // Close the XML element.
-                    writer.write_event(Event::End(BytesEnd::new(key)))?;
+                    writer.write_event(Event::End(end_of(key)))?;
                 }
             }
         }
